@@ -239,6 +239,8 @@ func init() {
 				}
 			} else if sp.name == "X6" {
 				continue
+			} else if sp.name == "X10" {
+				bound = 1
 			}
 			out = append(out, Plan{Sc: c16Scenario(sp), Bound: bound})
 		}
